@@ -52,6 +52,9 @@ struct Cfg {
     scratch: std::path::PathBuf,
 }
 
+/// the steered race has produced its leak once: further attempts would only cost a watchdog period each
+static RACE_FOUND: std::sync::atomic::AtomicBool = std::sync::atomic::AtomicBool::new(false);
+
 struct OpRec {
     op: Option<Box<dyn DynOp>>,
     ptr: u64,
@@ -116,6 +119,9 @@ struct Run<'a> {
     beat: &'a AtomicU64,
     obs_ok: u64,
     early_final: u64,
+    /// event-log position when the proactor was dropped
+    release_mark: Option<usize>,
+    foreign_frees: u64,
     salt: u64,
 }
 
@@ -497,6 +503,7 @@ impl<'a> Run<'a> {
             }
         }
         self.zombies.clear();
+        self.release_mark = Some(rec::mark());
         match &mut self.be {
             Backend::Drv(d) => drop(d.take()),
             Backend::Rt(rt) => drop(rt.take()),
@@ -551,8 +558,42 @@ impl<'a> Run<'a> {
         if dbl > 0 {
             self.contract("double-free", format!("{dbl} buffers deallocated twice ({allocs} allocated, {frees} freed)"));
         }
+        let evs = rec::since(0);
+        self.foreign_frees += evs.iter().filter(|e| e.site == "op.free" && !e.main).count() as u64;
         if live > 0 {
-            self.contract("leak-after-release", format!("{live} of {allocs} buffers never deallocated after the pool and every holder were dropped"));
+            // who still holds it? operations that were allocated and never freed, and what their thread-pool job did
+            let rm = self.release_mark.unwrap_or(evs.len());
+            let mut holder = "unknown";
+            let mut detail = vec![];
+            let allocs_: Vec<(usize, u64)> = evs.iter().enumerate().filter(|(_, e)| e.site == "op.alloc").map(|(i, e)| (i, e.a)).collect();
+            for (i, p) in allocs_ {
+                let freed = evs[i..].iter().any(|e| e.site == "op.free" && e.a == p);
+                if freed {
+                    continue;
+                }
+                let disp = evs[i..].iter().any(|e| e.site == "blocking.dispatch" && e.a == p);
+                let delivered = evs[i..].iter().any(|e| e.site == "op.result" && e.a == p);
+                if disp && !delivered {
+                    // the job's completion entry never reached the driver: with the driver gone the entry (a
+                    // reference to the op) is dropped by the pool thread
+                    holder = "op-dropped-off-driver-thread";
+                    detail.push(format!(
+                        "op {p:#x} ran on the thread pool, its completion entry never reached the driver (proactor dropped at event {rm}), the op was never freed"));
+                } else {
+                    if holder == "unknown" {
+                        holder = "op-never-freed";
+                    }
+                    detail.push(format!("op {p:#x}: never freed (thread pool: {disp}, result delivered: {delivered})"));
+                }
+            }
+            if holder == "op-dropped-off-driver-thread" {
+                RACE_FOUND.store(true, Ordering::Relaxed);
+            }
+            let mut sig = self.sig("leak-after-release");
+            sig["holder"] = json!(holder);
+            self.problems.borrow_mut().push(("contract".into(), sig, format!(
+                "{live} of {allocs} buffers never deallocated within {:?} after the pool and every holder were dropped; {}",
+                self.cfg.wd, detail.join("; ")), self.step));
         }
     }
 
@@ -606,7 +647,7 @@ impl<'a> Run<'a> {
     }
 }
 
-fn run_case(cfg: &Cfg, case: &Value, idx: usize, beat: &AtomicU64, problems: &std::cell::RefCell<Vec<(String, Value, String, usize)>>) -> (u64, u64) {
+fn run_case(cfg: &Cfg, case: &Value, idx: usize, beat: &AtomicU64, problems: &std::cell::RefCell<Vec<(String, Value, String, usize)>>) -> (u64, u64, u64) {
     let kind = case["kind"].as_str().unwrap_or("ring").to_string();
     let n = case["n"].as_u64().unwrap_or(2) as usize;
     let maxh = case["maxh"].as_u64().unwrap_or(n as u64 + 1) as usize;
@@ -648,6 +689,8 @@ fn run_case(cfg: &Cfg, case: &Value, idx: usize, beat: &AtomicU64, problems: &st
         beat,
         obs_ok: 0,
         early_final: 0,
+        release_mark: None,
+        foreign_frees: 0,
         salt: idx as u64 * 16,
     };
     let mut nsteps = 0u64;
@@ -743,6 +786,43 @@ fn run_case(cfg: &Cfg, case: &Value, idx: usize, beat: &AtomicU64, problems: &st
                 }
             }
             "release" => run.release(),
+            // steering: a thread-pool job (file read on the polling driver) is held right after it finished
+            // (hook blocking.done, before its completion entry is sent) until the proactor is gone.
+            // k = 0: the user's key is dropped first, then the job goes on (its entry is dropped on the pool thread)
+            // k = 1: both drop their reference to the op at the same moment
+            "race_release" if k == 1 && RACE_FOUND.load(Ordering::Relaxed) => {}
+            "race_release" => {
+                let before = rec::parked();
+                // k = 2: no steering at all; also once the gate had to open by itself (the driver's drop waits
+                // for its thread-pool jobs): holding is pointless then
+                let gated = k != 2 && rec::gate_timeouts() == 0;
+                rec::hold(gated);
+                let sub = run.do_submit(&o, false);
+                let t0 = Instant::now();
+                while gated && sub == "ok" && rec::parked() == before && t0.elapsed() < run.cfg.wd {
+                    std::thread::sleep(Duration::from_micros(200));
+                    run.tick();
+                }
+                if gated && rec::parked() == before {
+                    rec::hold(false);
+                    run.mismatch("steering", "the operation did not go to the thread pool".into());
+                } else {
+                    let key = run.ops.remove(&o);
+                    run.zombies.clear();
+                    run.release_mark = Some(rec::mark());
+                    match &mut run.be {
+                        Backend::Drv(d) => drop(d.take()),
+                        Backend::Rt(rt) => drop(rt.take()),
+                    }
+                    if k == 0 {
+                        drop(key);
+                        rec::hold(false);
+                    } else {
+                        rec::hold(false);
+                        drop(key);
+                    }
+                }
+            }
             // control: the documented misuse (BufferPool::take called directly on a buffer the kernel owns);
             // the contract oracle has to see the resulting double ownership
             "misuse_take" => {
@@ -800,7 +880,7 @@ fn run_case(cfg: &Cfg, case: &Value, idx: usize, beat: &AtomicU64, problems: &st
     }
     run.teardown();
     let obs_ok = run.obs_ok;
-    (nsteps, obs_ok)
+    (nsteps, obs_ok, run.foreign_frees)
 }
 
 fn main() {
@@ -870,6 +950,7 @@ fn main() {
     }
     let mut rep = Report::new();
     let mut obs_total = 0u64;
+    let mut foreign_total = 0u64;
     let mut skipped = 0u64;
     for (idx, case) in cases_from_arg().enumerate() {
         if !cfg.src.can_close()
@@ -889,9 +970,10 @@ fn main() {
             rep.problem(&ty, sig, desc, &case, step);
         }
         match r {
-            Ok((nsteps, obs_ok)) => {
+            Ok((nsteps, obs_ok, ff)) => {
                 rep.steps += nsteps;
                 obs_total += obs_ok;
+                foreign_total += ff;
             }
             Err(e) => {
                 let msg = panic_msg(e);
@@ -909,6 +991,8 @@ fn main() {
     }
     rep.set("observations", json!(obs_total));
     rep.set("skipped", json!(skipped));
+    rep.set("foreign_thread_frees", json!(foreign_total));
+    rep.set("steering_gate_timeouts", json!(rec::gate_timeouts()));
     rep.set("leg", json!(cfg.leg));
     rep.set("src", json!(cfg.src.name()));
     rep.set("bl", json!(cfg.bl));
